@@ -355,6 +355,10 @@ class DFXPWriter(BaseWriter):
         """
         dfxp = BeautifulSoup(DFXP_BASE_MARKUP, 'lxml-xml')
 
+        # A span left open by an earlier write() on this object (a style start
+        # without its end) must not leak a closing tag into this document
+        self.open_span = False
+
         langs = caption_set.get_languages()
         if force in langs:
             langs = [force]
